@@ -676,14 +676,20 @@ def numpy_call(self, name, pos, kw):
         if axc < 0 and T.rank_of(X) is not None and T.rank_of(X) + axc >= 0:
             axc = T.rank_of(X) + axc
         d = T.shape_dim(X, axc) if axc >= 0 else None
-        if d is None and axc >= 0 and self.frames:
+        if d is None and self.frames:
             inl = _arity_of_package_call(self, X, ast.parse('f()', mode='eval').body, self.frames[-1], want='value')
             if inl is not None:
                 ia_ = inl.single_atom()
                 if ia_ is not None and ia_.kind in ('after', 'loopvar') and len(ia_.args) == 2 and \
                         (ia_.args[0], ia_.args[1]) in self.loop_shape:
                     inl = self.loop_shape[(ia_.args[0], ia_.args[1])]      # only item stores in the loop: shape as on entry
-                d = T.shape_dim(inl, axc)
+                if axc < 0 and T.rank_of(inl) is not None and T.rank_of(inl) + axc >= 0:
+                    # (the rank of an opaque package call is read off its body: a negative axis becomes the explicit one)
+                    axc = T.rank_of(inl) + axc
+                    kw = [(k, v) for k, v in kw if k != 'axis'] + [('axis', Term.num(axc))]
+                    kd = dict(kw)
+                if axc >= 0:
+                    d = T.shape_dim(inl, axc)
         if d is not None and (d - kd['n']).is_zero():
             kw = [(k, v) for k, v in kw if k != 'n']
     # a keyword spelled with its documented default is the same call as without it
